@@ -614,6 +614,7 @@ func (x *gx) exprKey(e ast.Expr) string {
 			case "PeekToken":
 				return "peek." + sel.Sel.Name
 			}
+			return "p." + inner.Sel.Name + "." + sel.Sel.Name
 		}
 		return ""
 	}
@@ -1180,6 +1181,13 @@ func (x *gx) inline(call *ast.CallExpr, f *types.Func, s *gState) []gOut {
 		return one(s, gVal{})
 	}
 	bind := map[types.Object]int64{}
+	// token-constant arguments are bound as constants; any other argument (a list being built, a node) is evaluated in
+	// the caller's state and becomes the value of the parameter inside the helper
+	type argState struct {
+		s    *gState
+		vals map[types.Object]gVal
+	}
+	states := []argState{{s, map[types.Object]gVal{}}}
 	i := 0
 	for _, fl := range fd.Type.Params.List {
 		for _, n := range fl.Names {
@@ -1187,7 +1195,18 @@ func (x *gx) inline(call *ast.CallExpr, f *types.Func, s *gState) []gOut {
 				if k, ok := x.tokConst(call.Args[i]); ok {
 					bind[x.info.Defs[n]] = k
 				} else {
-					x.issue("argument %d of %s at %s is not a token constant", i, f.Name(), x.c.pos(call.Pos()))
+					var next []argState
+					for _, as := range states {
+						for _, o := range x.evalOuts(call.Args[i], as.s) {
+							vals := make(map[types.Object]gVal, len(as.vals)+1)
+							for k2, v2 := range as.vals {
+								vals[k2] = v2
+							}
+							vals[x.info.Defs[n]] = o.v
+							next = append(next, argState{o.s, vals})
+						}
+					}
+					states = next
 				}
 			}
 			i++
@@ -1199,9 +1218,12 @@ func (x *gx) inline(call *ast.CallExpr, f *types.Func, s *gState) []gOut {
 	}
 	x.binds = append(x.binds, bind)
 	savedLocals := s.locals
-	s.locals = map[types.Object]gVal{}
-	s.depth++
-	outs := x.stmts(fd.Body.List, []*gState{s})
+	var outs []*gState
+	for _, as := range states {
+		as.s.locals = as.vals
+		as.s.depth++
+		outs = append(outs, x.stmts(fd.Body.List, []*gState{as.s})...)
+	}
 	x.binds = x.binds[:len(x.binds)-1]
 	x.recvObj = savedRecv
 	var res []gOut
